@@ -281,10 +281,11 @@ func c12Scenario(r *vf.Run, t *testing.T, id string, rng *rand.Rand) {
 			}
 			replay["mutation"] = op
 		case "adversary":
-			kind := rng.Intn(14)
+			kind := rng.Intn(16)
 			if silence {
 				kind = 99
 			}
+			undefinedFlags := false
 			class = fmt.Sprintf("a%d", kind)
 			anyStream := uint32(1)
 			for _, s := range streamOf {
@@ -333,9 +334,33 @@ func c12Scenario(r *vf.Run, t *testing.T, id string, rng *rand.Rand) {
 				e.P.Write(wire.Frame(nil, wire.THeaders, wire.FEndHeaders|wire.FEndStream, anyStream, []byte{0xff, 0xff, 0xff, 0xff, 0xff, 0xff, 0xff, 0xff, 0xff, 0xff, 0xff, 0x01}, -1))
 			case 13:
 				e.P.Write(wire.Frame(nil, wire.TPing, 0, 0, make([]byte, 7), -1))
+			case 14, 15:
+				// frames carrying flag bits that mean nothing for their type (the END_STREAM / END_HEADERS positions on
+				// WINDOW_UPDATE and PRIORITY): they must be ignored (RFC 7540 4.1), in particular they end no response
+				var out []byte
+				for _, s := range streamOf {
+					b := rt.WindowUpdate(s, 100)
+					if kind == 15 {
+						b = rt.Priority(s, 0, false, 10)
+					}
+					b[4] |= 0x1 | 0x4
+					out = append(out, b...)
+				}
+				e.P.Write(out)
+				rt.Wait()
+				undefinedFlags = true
+				for i, c := range calls {
+					if i >= len(reqs) {
+						break
+					}
+					if done, err, _ := c.Outcome(); done && err == nil && streamOf[reqs[i].Tag] != 0 {
+						fail("success-without-response", fmt.Sprintf("family adversary/a%d: request %s (stream %d) was reported successful after a %s frame with undefined flag bits, although the server has not sent a single response frame", kind, reqs[i].Tag, streamOf[reqs[i].Tag], map[int]string{14: "WINDOW_UPDATE", 15: "PRIORITY"}[kind]))
+					}
+				}
 			case 99:
 				time.Sleep(25 * time.Second)
 			}
+			_ = undefinedFlags
 			if rng.Intn(2) == 0 && kind != 99 {
 				// the valid responses still follow
 				sendAll(frames, len(frames), func(int) bool { return false })
